@@ -84,7 +84,18 @@ var i64s = []int64{0, 1, -1, 9223372036854775807, -9223372036854775808, 21474836
 var f64s = []float64{0, math.Copysign(0, -1), 1, -1, 0.1, 1.5, 1e6, 1e-7, 9.999999e-8, 1e20, 1e21, 9.99999e20, 1.2e21, 1e22, 1e-6, 123456789.125,
 	math.MaxFloat64, -math.MaxFloat64, math.SmallestNonzeroFloat64, math.Inf(1), math.Inf(-1), math.NaN(), 1e100, 1e-100, 5e-324, 2.2250738585072014e-308, 100000, 1e+21, 3.4028234663852886e+38}
 var f32s = []float32{0, float32(math.Copysign(0, -1)), 1, -1, 0.1, 1.5, 1e6, 1e-7, 1e20, 1e21, 1e22, math.MaxFloat32, math.SmallestNonzeroFloat32,
-	float32(math.Inf(1)), float32(math.Inf(-1)), float32(math.NaN()), 16777216, 3.4e38, 1e-45}
+	float32(math.Inf(1)), float32(math.Inf(-1)), float32(math.NaN()), 16777216, 3.4e38, 1e-45,
+	// shortest float32 text differs from the text of the widened float64 (0.3 vs 0.30000001192092896 ...)
+	0.2, 0.3, -0.7, 1.1, 3.14159274, 1.0 / 3, 123456.79, 9.999999e-8, 9.999999e20, 1.0000001e21, 6.02214076e23, 1e-10, 2.5e-38,
+	// neighbours of 2^24 (the last odd integer / first gap of two), of 2^31 and 2^63, the largest below 1, the smallest above 1
+	16777215, 16777218, 16777220, 8388607.5, 2147483520, 2147483648, 9223371487098961920, 0.99999994, 1.0000001,
+	// -MaxFloat32, the value below MaxFloat32, smallest normal, largest subnormal, a mid subnormal
+	-math.MaxFloat32, 3.4028233e38, 1.1754944e-38, 1.1754942e-38, 4.2e-42, -1e-45,
+	// double-rounding witnesses: float32 values whose shortest float32 text, read as a float64 and then narrowed (what a JSON
+	// reader that parses numbers as float64 does), lands on the NEIGHBOUR (the text is within 2^-54 of the midpoint of two
+	// float32 values).  An exhaustive search over the 2^32 bit patterns finds exactly these two; c01CheckFloatPools re-derives
+	// the class membership with strconv on every run
+	math.Float32frombits(0x15ae43fd), math.Float32frombits(0x95ae43fd)}
 
 func genPrim(r *hx.Rand, p string, utf8 bool) *Val {
 	switch p {
